@@ -51,7 +51,7 @@ def main():
             print("harness build failed:\n" + out[-3000:]); sys.exit(2)
         for s in suites:
             cov = os.path.join(tmp, "cov.json")
-            env = dict(ENV, TALLYDRV=os.path.join(VERIF, "lean", ".lake", "build", "bin", "tallydrv"))
+            env = dict(ENV, TALLYDRV=os.path.join(VERIF, "lean", ".lake", "build", "bin", "tallydrv"), VERIF_HARNESS_DIR=h)
             p = subprocess.run([hbin, "-seed", seed, "-tier", tier, "-out", cov, s], cwd=VERIF, env=env, stdout=subprocess.PIPE, stderr=subprocess.STDOUT, text=True, timeout=3000)
             print("== suite %s rc=%d" % (s, p.returncode))
             if p.returncode not in (0, 1):
